@@ -9,6 +9,7 @@ the rules see:
   E2  tuple extension     `(*a, x)`                      ->  `a + (x,)`
   E3  tests in NNF        `not (a and b)` -> `not a or not b`, `not a == b` -> `a != b`,
                           `not a < b` -> `a >= b`, `lo <= x <= hi` -> `lo <= x and x <= hi`
+  E4  boolean `if` exprs  `a if c else False` -> `c and a`, `True if c else b` -> `c or b`   (a, b, c boolean)
   S1  else hoisting       `if c: A(jumps) else: B`       ->  `if c: A` ; B
                           `if c: A else: B(jumps)`       ->  `if not c: B` ; A
   S2  orientation         `if not c: A else: B`          ->  `if c: B else: A`
@@ -30,6 +31,7 @@ the rules see:
   S10 try/else            `try: A except: H(jumps) else: B` -> `try: A except: H` ; B
   S11 reduce              `acc = init` ; `for t in it: acc = f(acc, t)` -> `acc = functools.reduce(f, it, init)`
   S13 rebinding           `x = a` ; `x = f(x)` ; `use(x)`  ->  `x1 = a` ; `x = f(x1)` ; `use(x)`  (then S9 applies)
+  S14 boolean returns     `return a and b`  ->  `if not a: return False` ; `return b`   (a syntactically boolean; `or` dually)
   S12 literal loops       `for x in (a, b): S(x)`  ->  `S(a)` ; `S(b)`   (at most four simple elements, no
                           `break`, `continue` only as leading guards, x not used afterwards)
 
@@ -274,6 +276,21 @@ class _Expr(ast.NodeTransformer):
         if isinstance(node.test, ast.UnaryOp) and isinstance(node.test.op, ast.Not):
             self.changed = True
             node.test, node.body, node.orelse = node.test.operand, node.orelse, node.body
+        # E4 boolean conditional expressions are and / or
+        c, a, b = node.test, node.body, node.orelse
+        if is_bool_expr(c):
+            new: Optional[ast.expr] = None
+            if _is_const(b, False) and is_bool_expr(a):
+                new = ast.BoolOp(op=ast.And(), values=[c, a])
+            elif _is_const(a, True) and is_bool_expr(b):
+                new = ast.BoolOp(op=ast.Or(), values=[c, b])
+            elif _is_const(b, True) and is_bool_expr(a):
+                new = ast.BoolOp(op=ast.Or(), values=[negate(c), a])
+            elif _is_const(a, False) and is_bool_expr(b):
+                new = ast.BoolOp(op=ast.And(), values=[negate(c), b])
+            if new is not None:
+                self.changed = True
+                return nnf(_loc(new, node))
         return node
 
     def visit_Assert(self, node: ast.Assert) -> ast.AST:
@@ -671,6 +688,15 @@ class Canon:
             if isinstance(v, ast.IfExp):
                 g = _loc(ast.If(test=v.test, body=[_loc(ast.Return(value=v.body), s)], orelse=[]), s)
                 return [g, _loc(ast.Return(value=v.orelse), s)], 0
+            # S14 `return a and b` (a boolean)  ->  `if not a: return False` ; `return b`
+            if isinstance(v, ast.BoolOp) and len(v.values) >= 2 and all(is_bool_expr(x) for x in v.values[:-1]):
+                is_and = isinstance(v.op, ast.And)
+                out: List[ast.stmt] = []
+                for x in v.values[:-1]:
+                    test = negate(x) if is_and else x
+                    out.append(_loc(ast.If(test=test, body=[_loc(ast.Return(value=ast.Constant(value=not is_and)), s)], orelse=[]), x))
+                out.append(_loc(ast.Return(value=v.values[-1]), s))
+                return out, 0
             # S8 return any/all
             r3 = self._return_any(s)
             if r3 is not None:
@@ -886,6 +912,28 @@ class Canon:
                     break
         return False
 
+    def _stable_flag(self, e: ast.expr, facts: NameFacts) -> bool:
+        """isinstance() / `is` tests (and their and/or/not) over names that are never re-bound."""
+        def stable(x: ast.expr) -> bool:
+            if isinstance(x, ast.Constant):
+                return True
+            if isinstance(x, ast.Name):
+                return facts.stores.get(x.id, 0) == 0
+            if isinstance(x, ast.Tuple):
+                return all(stable(y) for y in x.elts)
+            if _is_path(x):
+                return facts.stores.get(_path_root(x), 0) == 0 and not (set(_path_attrs(x)) & (self.mutable_attrs | facts.attr_stores))
+            return False
+        if isinstance(e, ast.Call) and isinstance(e.func, ast.Name) and e.func.id == "isinstance" and len(e.args) == 2 and not e.keywords:
+            return stable(e.args[0]) and stable(e.args[1])
+        if isinstance(e, ast.Compare) and len(e.ops) == 1 and isinstance(e.ops[0], (ast.Is, ast.IsNot)):
+            return stable(e.left) and stable(e.comparators[0])
+        if isinstance(e, ast.UnaryOp) and isinstance(e.op, ast.Not):
+            return self._stable_flag(e.operand, facts)
+        if isinstance(e, ast.BoolOp):
+            return all(self._stable_flag(v, facts) for v in e.values)
+        return False
+
     def _one_let(self, fn: ast.AST, body: List[ast.stmt], facts: NameFacts) -> bool:
         if self._split_rebinding(fn, facts):
             return True
@@ -901,6 +949,15 @@ class Canon:
                     isinstance(x, ast.Constant) or (isinstance(x, ast.Name) and facts.stores.get(x.id, 0) == 0 and x.id not in facts.special)
                     for x in value.elts
                 ):
+                    after = sum(_all_loads(x, name) for x in blk[i + 1:])
+                    if after == nloads:
+                        sub = _Subst(name, value)
+                        for k in range(i + 1, len(blk)):
+                            blk[k] = sub.visit(blk[k])
+                        del blk[i]
+                        return True
+                # a flag computed from stable names by isinstance / identity tests: substitute everywhere
+                if nloads >= 1 and self._stable_flag(value, facts):
                     after = sum(_all_loads(x, name) for x in blk[i + 1:])
                     if after == nloads:
                         sub = _Subst(name, value)
